@@ -397,6 +397,29 @@ def run_deserialiser(data, reread=False):
     return res
 
 
+def run_two_open_deserialisers(data_a, data_b):
+    """Two readers are opened (on two simulated files) before either stream is
+    parsed; then A is parsed to completion, then B.  Returns the two contexts
+    (None where parsing failed).  Instances must be independent: each result has
+    to equal what parsing that stream on its own gives."""
+    fa, fb = SimFile(data_a), SimFile(data_b)
+    fa.read_budget = 64 * len(data_a) + 4096
+    fb.read_budget = 64 * len(data_b) + 4096
+    rb = BitstreamReader(fb)
+    ra = BitstreamReader(fa)
+    out = []
+    for rd in (ra, rb):
+        try:
+            with MonitoredDeserialiser(_scope_monitor, rd) as des:
+                bs_vc2.parse_stream(des, State())
+            out.append(des.context)
+        except (Exception, OutOfScope, StepBudgetExceeded) as e:  # noqa: BLE001
+            if isinstance(e, Exception):
+                check_seam_gap(e)
+            out.append(None)
+    return out
+
+
 def run_serialiser(context):
     """Serialise a description with the real Serialiser; returns (bytes, exc)."""
     g = SimFile()
